@@ -177,6 +177,13 @@ def run(ctx) -> None:
         calls = [c for c in db.calls_in(g_) if "_maybe_clone_broadcast" in call_names(db, c, g_)]
         ok = bool(calls) and all(any(contains(lp, c) for lp in loops) for c in calls)
         rep.add("C10.R6", f"{g_.qname}:cloned-per-item", ok, g_.loc(), "broadcast values are cloned inside the per-item loop (a fresh copy for every item)" if ok else "broadcast values are cloned once outside the per-item loop: all items share one copy")
+    # the names in clone=[...] reach the nested map in the inner graph's name space (the broadcast dict the clone
+    # helper matches them against is keyed by the inner graph's own input names): qualifier inference over the
+    # mapping executors — a name list taken from the wrapper's current (renamed) space matches nothing and the
+    # value is silently shared by all items
+    from .c06 import check_qualifiers
+
+    check_qualifiers(ctx, "C10.R6", only=("executors.graph_node",))
 
     # ---- R5 ---------------------------------------------------------------------
     from .c18 import check_nested_map_inputs
